@@ -144,10 +144,14 @@ func genName(r *rand.Rand) string {
 			break
 		}
 		b := make([]byte, l)
+		esc := r.IntN(12) == 0 // labels made of backslashes and digits: octets like any other (no escape syntax on this API)
 		for k := range b {
 			c := byte(r.UintN(256))
 			if r.IntN(3) != 0 {
 				c = byte('a' + r.UintN(26))
+			}
+			if esc {
+				c = []byte{'\\', '\\', '0', '1', '2', '5', '6', '9', 'a', '"', '(', ';', '@', '$'}[r.IntN(14)]
 			}
 			if c == '.' {
 				c = '_'
@@ -369,8 +373,32 @@ func judgeEdit(r *mon.Rec, idx int) {
 			return
 		}
 		want := append([]string{}, names...)
-		kind := rng.IntN(7)
+		kind := rng.IntN(9)
 		switch kind {
+		case 7, 8: // a label moves across the boundary between two adjacent names ("a.b","c" <-> "a","b.c"), or one name is
+			// cut in two at a dot / two names are joined by a dot: the dotted concatenation of the list stays what it was
+			if len(want) == 0 {
+				return
+			}
+			i := rng.IntN(len(want))
+			switch {
+			case kind == 7 && i+1 < len(want) && strings.Contains(want[i], ".") && want[i+1] != "" && len(want[i+1])+len(want[i]) < 240:
+				k := strings.LastIndex(want[i], ".")
+				a, bb := want[i][:k], want[i][k+1:]
+				want[i], want[i+1] = a, bb+"."+want[i+1]
+				l.Labels[i], l.Labels[i+1] = want[i], want[i+1]
+			case strings.Contains(want[i], "."):
+				k := strings.Index(want[i], ".")
+				a, bb := want[i][:k], want[i][k+1:]
+				want = append(want[:i:i], append([]string{a, bb}, want[i+1:]...)...)
+				l.Labels = append([]string{}, want...)
+			case i+1 < len(want) && want[i] != "" && want[i+1] != "" && len(want[i])+len(want[i+1]) < 250:
+				j := want[i] + "." + want[i+1]
+				want = append(want[:i:i], append([]string{j}, want[i+2:]...)...)
+				l.Labels = append([]string{}, want...)
+			default:
+				return
+			}
 		case 6: // the smallest edit: one octet of one name becomes a near neighbour (other letter case, another high
 			// octet, the next code point); names are octet strings, any difference is a change
 			i := rng.IntN(len(want))
